@@ -164,7 +164,7 @@ class ChipMonitor(Monitor):
 
 
 def make_monitors():
-    return [ChipMonitor()]
+    return [driver.Observer(), ChipMonitor()]
 
 
 def gen_kwargs(rng):
